@@ -1,0 +1,209 @@
+//go:build verif
+
+package difflib
+
+// Contracts for the govc verifier (see /verif/DESIGN.md). This file contains comments only.
+// Lines are uninterpreted values with equality (mode arr): "lines differing only in whitespace or invalid
+// UTF-8" are simply different lines.
+
+//@ mode arr
+//@ specfun blockOK(a Slice<Str>, b Slice<Str>, m S_difflib_match) Bool =
+//@      0 <= m.A && 0 <= m.B && 0 <= m.Size && m.A + m.Size <= len(a) && m.B + m.Size <= len(b)
+//@   && (forall u in m.A..m.A + m.Size: a[u] == b[u - m.A + m.B])
+//@ specfun blocksOK(a Slice<Str>, b Slice<Str>, ms Slice<S_difflib_match>) Bool =
+//@      (forall k in 0..len(ms): blockOK(a, b, ms[k]))
+//@   && (forall k in 0..len(ms) - 1: ms[k].A + ms[k].Size <= ms[k + 1].A && ms[k].B + ms[k].Size <= ms[k + 1].B)
+//@ specfun blocksEnd(a Slice<Str>, b Slice<Str>, ms Slice<S_difflib_match>) Bool =
+//@      len(ms) >= 1 && ms[len(ms) - 1].A == len(a) && ms[len(ms) - 1].B == len(b) && ms[len(ms) - 1].Size == 0
+//@ specfun allPos(ms Slice<S_difflib_match>) Bool = forall k in 0..len(ms): ms[k].Size > 0
+//@ specfun endsBefore(ms Slice<S_difflib_match>, ai Int, bj Int) Bool = len(ms) > 0 ==> ms[len(ms) - 1].A + ms[len(ms) - 1].Size <= ai && ms[len(ms) - 1].B + ms[len(ms) - 1].Size <= bj
+//@ specfun b2jOK(b Slice<Str>, dom Array<Str,Bool>, vals Array<Str,Slice<Int>>) Bool =
+//@      forall l Str, k Int {vals[l][k]}: dom[l] && 0 <= k && k < len(vals[l]) ==> 0 <= vals[l][k] && vals[l][k] < len(b) && b[vals[l][k]] == l
+//@ specfun opShape(a Slice<Str>, b Slice<Str>, c S_difflib_OpCode) Bool =
+//@      0 <= c.Tag && c.Tag <= 3 && 0 <= c.I1 && c.I1 <= c.I2 && c.I2 <= len(a) && 0 <= c.J1 && c.J1 <= c.J2 && c.J2 <= len(b)
+//@   && (c.Tag == 0 ==> c.I2 - c.I1 == c.J2 - c.J1 && c.I1 < c.I2 && (forall u in c.I1..c.I2: a[u] == b[u - c.I1 + c.J1]))
+//@   && (c.Tag == 1 ==> c.I1 == c.I2 && c.J1 < c.J2)
+//@   && (c.Tag == 2 ==> c.J1 == c.J2 && c.I1 < c.I2)
+//@   && (c.Tag == 3 ==> c.I1 < c.I2 && c.J1 < c.J2)
+//@ specfun opsTile(a Slice<Str>, b Slice<Str>, ops Slice<S_difflib_OpCode>) Bool =
+//@      (forall k in 0..len(ops): opShape(a, b, ops[k]))
+//@   && (forall k in 0..len(ops) - 1: ops[k].I2 == ops[k + 1].I1 && ops[k].J2 == ops[k + 1].J1)
+//@   && (len(ops) == 0 ==> len(a) == 0 && len(b) == 0)
+//@   && (len(ops) > 0 ==> ops[0].I1 == 0 && ops[0].J1 == 0 && ops[len(ops) - 1].I2 == len(a) && ops[len(ops) - 1].J2 == len(b))
+//@ specfun allEqualOps(ops Slice<S_difflib_OpCode>, n Int) Bool = forall k in 0..n: ops[k].Tag == 0
+//@ specfun sameSeq(a Slice<Str>, b Slice<Str>) Bool = len(a) == len(b) && (forall t in 0..len(a): a[t] == b[t])
+//@ specfun opWeak(a Slice<Str>, b Slice<Str>, c S_difflib_OpCode) Bool =
+//@      0 <= c.Tag && c.Tag <= 3 && 0 <= c.I1 && c.I1 <= c.I2 && c.I2 <= len(a) && 0 <= c.J1 && c.J1 <= c.J2 && c.J2 <= len(b)
+//@   && (c.Tag == 0 ==> c.I2 - c.I1 == c.J2 - c.J1 && (forall u in c.I1..c.I2: a[u] == b[u - c.I1 + c.J1]))
+//@   && (c.Tag == 1 ==> c.I1 == c.I2 && c.J1 < c.J2)
+//@   && (c.Tag == 2 ==> c.J1 == c.J2 && c.I1 < c.I2)
+//@   && (c.Tag == 3 ==> c.I1 < c.I2 && c.J1 < c.J2)
+//@ specfun groupsOK(a Slice<Str>, b Slice<Str>, gs Slice<Slice<S_difflib_OpCode>>) Bool =
+//@      (forall g in 0..len(gs): len(gs[g]) >= 1 && (forall c in 0..len(gs[g]): opWeak(a, b, gs[g][c])))
+//@ specfun hasChange(gs Slice<Slice<S_difflib_OpCode>>) Bool = exists g in 0..len(gs): exists c in 0..len(gs[g]): gs[g][c].Tag != 0
+//@ mode all
+
+//@ func min(a, b) returns (r)
+//@   mode arr
+//@   pure
+//@   assigns nothing
+//@   ensures r == (a < b ? a : b)
+//@ func max(a, b) returns (r)
+//@   mode arr
+//@   pure
+//@   assigns nothing
+//@   ensures r == (a > b ? a : b)
+
+//@ func (*sequenceMatcher).isBJunk(m, s) returns (r)
+//@   mode arr
+//@   requires m != nil
+//@   assigns nothing
+//@   ensures r == has(m.bJunk, s)
+//@
+//@ func (*sequenceMatcher).findLongestMatch(m, alo, ahi, blo, bhi) returns (r)
+//@   mode arr
+//@   requires m != nil && 0 <= alo && alo <= ahi && ahi <= len(m.a) && 0 <= blo && blo <= bhi && bhi <= len(m.b)
+//@   requires m.b2j != nil && b2jOK(m.b, dom(m.b2j), vals(m.b2j))
+//@   assigns alloc
+//@   ensures [bounds] alo <= r.A && r.A + r.Size <= ahi && blo <= r.B && r.B + r.Size <= bhi && r.Size >= 0
+//@   ensures [equal] forall u in r.A..r.A + r.Size: m.a[u] == m.b[u - r.A + r.B]
+//@   let A = old(m.a)
+//@   let B = old(m.b)
+//@   let bestOK = alo <= besti && blo <= bestj && bestsize >= 0 && bestj + bestsize <= bhi && (forall u in besti..besti + bestsize: A[u] == B[u - besti + bestj])
+//@   let mapsKept = forall r Ref: old(alloc)[r] ==> domheap("map[int]int")[r] == old(domheap("map[int]int"))[r] && valheap("map[int]int")[r] == old(valheap("map[int]int"))[r]
+//@   let kept = mapsKept && heap(sequenceMatcher.a) == old(heap(sequenceMatcher.a)) && heap(sequenceMatcher.b) == old(heap(sequenceMatcher.b)) && heap(sequenceMatcher.b2j) == old(heap(sequenceMatcher.b2j)) && heap(sequenceMatcher.bJunk) == old(heap(sequenceMatcher.bJunk))
+//@   loop 1 invariant kept && alo <= i && i <= ahi && bestOK && besti + bestsize <= i
+//@   loop 1 invariant j2len != nil && (forall j Int {has(j2len, j)}: has(j2len, j) ==> j2len[j] >= 1 && blo <= j - j2len[j] + 1 && j < bhi && alo <= i - j2len[j])
+//@   loop 1 invariant forall j Int, u Int {has(j2len, j), B[u]}: has(j2len, j) && j - j2len[j] < u && u <= j ==> B[u] == A[u - j + i - 1]
+//@   loop 1.1 invariant kept && alo <= i && i < ahi && bestOK && besti + bestsize <= i + 1 && 0 <= $idx
+//@   loop 1.1 invariant j2len != nil && newj2len != nil && newj2len != j2len
+//@   loop 1.1 invariant forall j Int {has(j2len, j)}: has(j2len, j) ==> j2len[j] >= 1 && blo <= j - j2len[j] + 1 && j < bhi && alo <= i - j2len[j]
+//@   loop 1.1 invariant forall j Int, u Int {has(j2len, j), B[u]}: has(j2len, j) && j - j2len[j] < u && u <= j ==> B[u] == A[u - j + i - 1]
+//@   loop 1.1 invariant forall j Int {has(newj2len, j)}: has(newj2len, j) ==> newj2len[j] >= 1 && blo <= j - newj2len[j] + 1 && j < bhi && alo <= i + 1 - newj2len[j]
+//@   loop 1.1 invariant forall j Int, u Int {has(newj2len, j), B[u]}: has(newj2len, j) && j - newj2len[j] < u && u <= j ==> B[u] == A[u - j + i]
+//@   loop 2 invariant kept && bestOK && besti + bestsize <= ahi
+//@   loop 3 invariant kept && bestOK && besti + bestsize <= ahi
+//@   loop 4 invariant kept && bestOK && besti + bestsize <= ahi
+//@   loop 5 invariant kept && bestOK && besti + bestsize <= ahi
+//@
+//@ func (*sequenceMatcher).getMatchingBlocks$1(alo, ahi, blo, bhi, matched) returns (r)
+//@   mode arr
+//@   requires m != nil && 0 <= alo && alo <= ahi && ahi <= len(m.a) && 0 <= blo && blo <= bhi && bhi <= len(m.b)
+//@   requires m.b2j != nil && b2jOK(m.b, dom(m.b2j), vals(m.b2j))
+//@   requires blocksOK(m.a, m.b, matched) && allPos(matched) && endsBefore(matched, alo, blo)
+//@   assigns alloc
+//@   ensures [valid] blocksOK(m.a, m.b, r) && allPos(r) && endsBefore(r, ahi, bhi)
+//@   ensures [extends] len(r) >= len(matched) && (forall k in 0..len(matched): r[k] == matched[k])
+//@   ensures [window] forall k in len(matched)..len(r): r[k].A >= alo && r[k].B >= blo
+//@
+//@ func (*sequenceMatcher).getMatchingBlocks(m) returns (r)
+//@   mode arr
+//@   dead ret1
+//@   requires m != nil && m.matchingBlocks == nil
+//@   requires m.b2j != nil && b2jOK(m.b, dom(m.b2j), vals(m.b2j))
+//@   assigns m.matchingBlocks, alloc
+//@   ensures blocksOK(m.a, m.b, r) && blocksEnd(m.a, m.b, r)
+//@   ensures m.matchingBlocks == r
+//@   let A = old(m.a)
+//@   let B = old(m.b)
+//@   loop 1 invariant 0 <= $idx && $idx <= len(matched) && blocksOK(A, B, matched) && allPos(matched) && endsBefore(matched, len(A), len(B))
+//@   loop 1 invariant heap(sequenceMatcher.a) == old(heap(sequenceMatcher.a)) && heap(sequenceMatcher.b) == old(heap(sequenceMatcher.b)) && heap(sequenceMatcher.matchingBlocks) == old(heap(sequenceMatcher.matchingBlocks))
+//@   loop 1 invariant blocksOK(A, B, nonAdjacent) && allPos(nonAdjacent) && endsBefore(nonAdjacent, i1, j1)
+//@   loop 1 invariant 0 <= i1 && 0 <= j1 && 0 <= k1 && i1 + k1 <= len(A) && j1 + k1 <= len(B) && (forall u in i1..i1 + k1: A[u] == B[u - i1 + j1])
+//@   loop 1 invariant $idx < len(matched) ==> i1 + k1 <= matched[$idx].A && j1 + k1 <= matched[$idx].B
+//@   loop 1 invariant $idx > 0 && $idx == len(matched) ==> i1 + k1 == matched[$idx - 1].A + matched[$idx - 1].Size && j1 + k1 == matched[$idx - 1].B + matched[$idx - 1].Size
+//@   loop 1 invariant $idx == 0 ==> i1 == 0 && j1 == 0 && k1 == 0
+
+//@ func (*sequenceMatcher).getOpCodes(m) returns (r)
+//@   mode arr
+//@   dead ret1
+//@   requires m != nil && m.matchingBlocks == nil && m.opCodes == nil
+//@   requires m.b2j != nil && b2jOK(m.b, dom(m.b2j), vals(m.b2j))
+//@   assigns m.matchingBlocks, m.opCodes, alloc
+//@   ensures [tiling] opsTile(m.a, m.b, r)
+//@   ensures [all_equal] allEqualOps(r, len(r)) ==> sameSeq(m.a, m.b)
+//@   ensures [cached] m.opCodes == r
+//@   let A = old(m.a)
+//@   let B = old(m.b)
+//@   loop 1 invariant 0 <= $idx && $idx <= len(matching) && blocksOK(A, B, matching) && blocksEnd(A, B, matching)
+//@   loop 1 invariant heap(sequenceMatcher.a) == old(heap(sequenceMatcher.a)) && heap(sequenceMatcher.b) == old(heap(sequenceMatcher.b))
+//@   loop 1 invariant $idx == 0 ==> i == 0 && j == 0
+//@   loop 1 invariant $idx > 0 ==> i == matching[$idx - 1].A + matching[$idx - 1].Size && j == matching[$idx - 1].B + matching[$idx - 1].Size
+//@   loop 1 invariant len(opCodes) == 0 ==> i == 0 && j == 0
+//@   loop 1 invariant len(opCodes) > 0 ==> opCodes[0].I1 == 0 && opCodes[0].J1 == 0 && opCodes[len(opCodes) - 1].I2 == i && opCodes[len(opCodes) - 1].J2 == j
+//@   loop 1 invariant forall k in 0..len(opCodes) - 1: opCodes[k].I2 == opCodes[k + 1].I1 && opCodes[k].J2 == opCodes[k + 1].J1
+//@   loop 1 invariant forall k in 0..len(opCodes): opShape(A, B, opCodes[k])
+//@   loop 1 invariant allEqualOps(opCodes, len(opCodes)) ==> i == j && (forall t in 0..i: A[t] == B[t])
+
+//@ func (*sequenceMatcher).GetGroupedOpCodes(m, n) returns (r)
+//@   mode arr
+//@   option paths-in-loops
+//@   requires m != nil && m.matchingBlocks == nil && m.opCodes == nil && n >= 1
+//@   requires m.b2j != nil && b2jOK(m.b, dom(m.b2j), vals(m.b2j))
+//@   assigns m.matchingBlocks, m.opCodes, alloc
+//@   let A = old(m.a)
+//@   let B = old(m.b)
+//@   ensures [groups] groupsOK(A, B, r)
+//@   ensures [no_omission] !sameSeq(A, B) ==> hasChange(r)
+//@   ensures [seqs_kept] m.a == A && m.b == B
+//@   loop 1 invariant 0 <= $idx && $idx <= len(codes) && n >= 1 && nn == n + n
+//@   loop 1 invariant heap(sequenceMatcher.a) == old(heap(sequenceMatcher.a)) && heap(sequenceMatcher.b) == old(heap(sequenceMatcher.b))
+//@   loop 1 invariant groupsOK(A, B, groups)
+//@   loop 1 invariant (len(A) > 0 || len(B) > 0) ==> (forall c in 0..len(group): opWeak(A, B, group[c]))
+//@   loop 1 invariant (len(A) > 0 || len(B) > 0) ==> (forall k in 0..len(codes): opWeak(A, B, codes[k]))
+//@   loop 1 invariant (len(A) == 0 && len(B) == 0) ==> len(codes) == 1 && codes[0].Tag == 0 && codes[0].I2 - codes[0].I1 <= 1
+//@   loop 1 invariant (exists k in 0..$idx: codes[k].Tag != 0) ==> hasChange(groups) || (exists c in 0..len(group): group[c].Tag != 0)
+//@   loop 1 invariant (len(A) == 0 && len(B) == 0) ==> len(groups) == 0 && (forall c in 0..len(group): group[c].Tag == 0) && len(group) <= $idx
+//@   loop 1 invariant !sameSeq(A, B) ==> (exists k in 0..len(codes): codes[k].Tag != 0)
+
+//@ func (*sequenceMatcher).chainB(m)
+//@   mode arr
+//@   requires m != nil && m.IsJunk == nil
+//@   assigns m.b2j, m.bJunk, m.bPopular, alloc
+//@   ensures m.b2j != nil && b2jOK(m.b, dom(m.b2j), vals(m.b2j))
+//@   ensures m.bJunk != nil
+//@   let B = old(m.b)
+//@   let strMapsKept = forall r Ref: old(alloc)[r] ==> domheap("map[string][]int")[r] == old(domheap("map[string][]int"))[r] && valheap("map[string][]int")[r] == old(valheap("map[string][]int"))[r] && domheap("map[string]struct{}")[r] == old(domheap("map[string]struct{}"))[r] && valheap("map[string]struct{}")[r] == old(valheap("map[string]struct{}"))[r]
+//@   let kept = heap(sequenceMatcher.a) == old(heap(sequenceMatcher.a)) && heap(sequenceMatcher.b) == old(heap(sequenceMatcher.b)) && heap(sequenceMatcher.IsJunk) == old(heap(sequenceMatcher.IsJunk))
+//@   loop 1 invariant b2j != nil && !old(alloc)[b2j] && 0 <= $idx && $idx <= len(B)
+//@   loop 1 invariant forall r Ref: old(alloc)[r] ==> domheap("map[string][]int")[r] == old(domheap("map[string][]int"))[r] && valheap("map[string][]int")[r] == old(valheap("map[string][]int"))[r]
+//@   loop 1 invariant forall l Str, k Int {vals(b2j)[l][k]}: dom(b2j)[l] && 0 <= k && k < len(vals(b2j)[l]) ==> 0 <= vals(b2j)[l][k] && vals(b2j)[l][k] < $idx && B[vals(b2j)[l][k]] == l
+//@   loop 1 invariant forall l Str {vals(b2j)[l]}: len(vals(b2j)[l]) >= 0
+//@   loop 2 invariant false
+//@   loop 3 invariant false
+//@   loop 4 invariant kept && strMapsKept && b2j != nil && !old(alloc)[b2j] && popular != nil && !old(alloc)[popular] && popular != m.bJunk && m.bJunk != nil && !old(alloc)[m.bJunk] && b2jOK(B, dom(b2j), vals(b2j))
+//@   loop 5 invariant kept && strMapsKept && b2j != nil && !old(alloc)[b2j] && popular != nil && !old(alloc)[popular] && popular != m.bJunk && m.bJunk != nil && !old(alloc)[m.bJunk] && b2jOK(B, dom(b2j), vals(b2j))
+//@
+//@ func (*sequenceMatcher).setSeq1(m, a)
+//@   mode arr
+//@   dead ret1
+//@   requires m != nil
+//@   assigns m.a, m.matchingBlocks, m.opCodes, alloc
+//@   ensures m.a == a && m.matchingBlocks == nil && m.opCodes == nil
+//@
+//@ func (*sequenceMatcher).setSeq2(m, b)
+//@   mode arr
+//@   dead ret1
+//@   requires m != nil && m.IsJunk == nil
+//@   assigns m.b, m.matchingBlocks, m.opCodes, m.fullBCount, m.b2j, m.bJunk, m.bPopular, alloc
+//@   ensures m.b == b && m.matchingBlocks == nil && m.opCodes == nil
+//@   ensures m.b2j != nil && b2jOK(m.b, dom(m.b2j), vals(m.b2j)) && m.bJunk != nil
+//@
+//@ func (*sequenceMatcher).setSeqs(m, a, b)
+//@   mode arr
+//@   requires m != nil && m.IsJunk == nil
+//@   assigns m.a, m.b, m.matchingBlocks, m.opCodes, m.fullBCount, m.b2j, m.bJunk, m.bPopular, alloc
+//@   ensures m.a == a && m.b == b && m.matchingBlocks == nil && m.opCodes == nil
+//@   ensures m.b2j != nil && b2jOK(m.b, dom(m.b2j), vals(m.b2j)) && m.bJunk != nil
+//@
+//@ func NewMatcher(a, b) returns (r)
+//@   mode arr
+//@   assigns alloc
+//@   ensures fresh(r) && r.a == a && r.b == b && r.matchingBlocks == nil && r.opCodes == nil && r.IsJunk == nil
+//@   ensures r.b2j != nil && b2jOK(r.b, dom(r.b2j), vals(r.b2j)) && r.bJunk != nil
+//@
+//@ func FormatRangeUnified(start, stop) returns (r)
+//@   mode str
+//@   pure
+//@   assigns nothing
+//@   ensures len(r) >= 1
